@@ -1,6 +1,6 @@
 CONSTANTS
   Children = {"ca1", "ca2"}
-  ReqNames = {"i:ka", "i:kb", "i:kc", "i:kd", "r:ka", "r:kb", "r:kc"}
+  ReqNames = {"i:ka", "i:kb", "i:kc", "i:kd", "i:ke", "i:kf", "r:ka", "r:kb", "r:kc", "r:kd", "r:ke", "r:kf"}
   MaxNonce = 99
   MaxMsgs = 999
   MaxReassoc = 2
